@@ -502,6 +502,9 @@ func stalePacket(tok string, n uint8) []byte {
 	switch tok {
 	case "SYN":
 		m = &gbn.PacketSYN{N: n}
+	case "SYNX":
+		// a SYN of an earlier connection that used another window size
+		m = &gbn.PacketSYN{N: n + 3}
 	case "SYNACK":
 		m = &gbn.PacketSYNACK{}
 	case "DATA":
@@ -577,8 +580,8 @@ func init() {
 		}
 		sc.NoCloseAllowed = !p.has("ka")
 		sc.Monitors = append(sc.Monitors, monPrefix, monQuiet)
-		sc.Final = append(sc.Final, finalAllDelivered, finalNoHang)
-		sc.IdleAfter = 12 * time.Second
+		sc.Final = append(sc.Final, finalAllDelivered, finalNoHang, finalQuiet)
+		sc.IdleAfter = 24 * time.Second
 		sc.Cfg.Horizon = 150 * time.Second
 		sc.Cfg.DrainTime = 10 * time.Second
 		return sc
